@@ -106,6 +106,7 @@ Definition sim_result (sg : sstate) (sr : sres) (s : mstate) (cr : step_result) 
            forall p v, R (mkSS (S (ss_pc sg)) rest (ss_mem sg) (ss_store sg) (ss_tstore sg) p v (ss_ret sg)) s')
       /\ (eval rho c <> 0 -> is_jumpdest (se_code se) t = true ->
             exists s1 s2, cr = Continue s1 /\ (forall rs, step lim rs inst_env s1 = Continue s2) /\
+              s_world s2 = s_world s1 /\ s_ctr s2 = s_ctr s1 /\
               forall p v, R (mkSS (S (Z.to_nat t)) rest (ss_mem sg) (ss_store sg) (ss_tstore sg) p v (ss_ret sg)) s2)
       /\ (eval rho c <> 0 -> is_jumpdest (se_code se) t = false ->
             cr = Done (RHalt (s_ctr s) H_BADJUMP))
@@ -385,7 +386,7 @@ Proof.
             rewrite (is_jumpdest_byte _ _ Hj), decode_jumpdest. cbn [step_i]. cbv zeta.
             unfold next. cbn [s_stack with_stack]. rewrite map_length.
             assert (E : (1024 <? length r)%nat = false) by (apply Nat.ltb_ge; lia). rewrite E. reflexivity.
-          + intros p v. constructor; cbn; auto.
+          + split; [reflexivity|]. split; [reflexivity|]. intros p v. constructor; cbn; auto.
         - intros Hn Hj. apply Z.eqb_neq in Hn. rewrite Hn, Hj. reflexivity. }
       destruct c; try exact Hbranch.
       (* literal condition *)
@@ -573,11 +574,9 @@ Lemma exec_S : forall n e s,
 Proof. reflexivity. Qed.
 
 (* a plain step leaves the path condition unchanged *)
-Lemma sstep_next_path : forall sg sg', sstep lim se sg = SNext sg' -> ss_path sg' = ss_path sg.
+Lemma sstep_i_next_path : forall i sg sg', sstep_i lim se i sg = SNext sg' -> ss_path sg' = ss_path sg.
 Proof.
-  intros sg sg' Es.
-  unfold sstep in Es. destruct (nth_error (se_code se) (ss_pc sg)); [|discriminate].
-  remember (decode_op z) as i. clear Heqi.
+  intros i sg sg' Es.
   assert (Hn : forall st sg2, snext sg st = SNext sg2 -> ss_path sg2 = ss_path sg).
   { intros st sg2 H. unfold snext in H. destruct (1024 <? length st)%nat; inversion H. reflexivity. }
   assert (Hm : forall m st sg2, snext (set_mem sg m) st = SNext sg2 -> ss_path sg2 = ss_path sg).
@@ -591,6 +590,13 @@ Proof.
     try (inversion Es; subst; reflexivity);
     try (eapply Hn; eassumption); try (eapply Hm; eassumption);
     try (unfold sstuck, shalt in Es; discriminate).
+Qed.
+
+Lemma sstep_next_path : forall sg sg', sstep lim se sg = SNext sg' -> ss_path sg' = ss_path sg.
+Proof.
+  intros sg sg' Es. unfold sstep in Es.
+  destruct (nth_error (se_code se) (ss_pc sg)); [|discriminate].
+  eapply sstep_i_next_path. exact Es.
 Qed.
 
 (* paths only grow *)
@@ -654,7 +660,7 @@ Proof.
            assert (Hc : eval rho c <> 0).
            { rewrite Hp in Hsat. apply sat_app in Hsat. inversion Hsat as [|x xs Hx _]. subst.
              unfold holds in Hx. cbn in Hx. apply Z.eqb_neq. exact Hx. }
-           destruct (Htrue Hc Eearly) as [s1 [s2 [Hs1 [Hs2 HR2]]]].
+           destruct (Htrue Hc Eearly) as [s1 [s2 [Hs1 [Hs2 [_ [_ HR2]]]]]].
            destruct (IH _ s2 (HR2 _ _) l Hin Hsat) as [n Hn].
            exists (S (S n)). rewrite exec_S, (step_irrel lim se rho _ rs0 sg s HR) by (rewrite Es; reflexivity).
            rewrite Hs1, exec_S, Hs2. exact Hn.
